@@ -166,6 +166,14 @@ def candidates(path, lines):
                     new = line[: m.start()] + piece + line[m.end():]
                 if new != line:
                     out.append((i, name, line.rstrip("\n"), new.rstrip("\n")))
+        # argument swap: f(a, b) -> f(b, a) for two simple arguments (identifiers, field paths, literals)
+        for m in re.finditer(r"\((\s*[&*]?[\w.]+(?:\(\))?\s*),(\s*[&*]?[\w.]+(?:\(\))?\s*)([,)])", code):
+            a, b = m.group(1), m.group(2)
+            if a.strip() == b.strip():
+                continue
+            new = line[: m.start()] + "(" + b.strip() + ", " + a.strip() + m.group(3) + line[m.end():]
+            if new != line:
+                out.append((i, "argswap", line.rstrip("\n"), new.rstrip("\n")))
         # statement deletion: a single-line statement that is a call / assignment, not a binding
         s = code.strip()
         if s.endswith(";") and not re.match(r"(let|return|pub|use|type|const|static|break|continue|fn|mod|struct|enum|impl)\b", s) \
@@ -186,6 +194,7 @@ def main():
             per_file = int(a[1]); a = a[2:]
         else:
             raise SystemExit("bad arg " + a[0])
+    only = os.environ.get("MUT_ONLY_OPS")
     rng = random.Random(seed)
     os.makedirs(outdir, exist_ok=True)
     index = open(os.path.join(outdir, "index.jsonl"), "w")
@@ -195,6 +204,8 @@ def main():
         p = os.path.join(root, f)
         lines = open(p).read().split("\n")
         c = candidates(f, lines)
+        if only:
+            c = [x for x in c if x[1] in only.split(",")]
         rng.shuffle(c)
         # at most one mutant per (line, operator) and per_file per file
         seen = set()
